@@ -19,7 +19,7 @@ func defaultBand() band.FrequencyPlan {
 	return theBand
 }
 
-var storageOps = map[string]bool{"GetDeviceByDevAddr": true, "GetDeviceByEUI": true, "UpdateDeviceState": true, "CreateUpstreamMessage": true,
+var storageOps = map[string]bool{"GetDeviceByDevAddr": true, "GetDeviceByEUI": true, "UpdateDeviceState": true, "AdvanceFCntUp": true, "NextFCntDn": true, "CreateUpstreamMessage": true,
 	"GetApplicationByEUI": true, "UpdateMessageAckTime": true, "ResetActiveAcks": true, "GetNextUnsentMessage": true, "SetMessageSentTime": true,
 	"AddDevNonce": true, "UpdateDevice": true}
 
@@ -280,7 +280,7 @@ func ctlRaces(c *ctx, file func() string) error {
 				}
 			}
 		default:
-			// confirmed uplink 5 runs until its encoder stands before the counter write
+			// confirmed uplink 5 runs until its encoder stands before the counter operation
 			f5c, err := h.uplinkFrame(d, 5, true, false, []byte{0x55, byte(s), 1})
 			if err != nil {
 				return err
@@ -302,8 +302,8 @@ func ctlRaces(c *ctx, file func() string) error {
 				for _, l := range lb {
 					_ = l
 				}
-				// the encoder's second gate is UpdateDeviceState reached after its SetMessageSentTime
-				if len(sched) > 0 && sched[len(sched)-1] == "SetMessageSentTime" && p[0].op == "UpdateDeviceState" && len(sched) > 8 {
+				// the encoder's first gate: it is about to fetch the downlink counter
+				if p[0].op == "NextFCntDn" {
 					encoderAtWrite = true
 				}
 				if encoderAtWrite {
@@ -365,7 +365,7 @@ func ctlRaces(c *ctx, file func() string) error {
 			}
 			emitted = append(emitted, stateSections(st2)["emitted"])
 		}
-		// ---- oracles: violations under these schedules are the recorded findings (see known_findings.json)
+		// ---- oracles (the races these schedules used to expose are fixed: see known_findings.json)
 		if !h.failed {
 			full, _ := h.rig.stateText(h.euis)
 			if dups := inboxDuplicates(full, d.eui); len(dups) > 0 && c.prop == "C03" {
